@@ -256,7 +256,8 @@ class CouplingSimulationFixedTimes(CouplingSimulation):
                 fines_states_values[k] = slice_fine_values[-1]
                 coarse_states_values[k] = slice_coarse_values[-1]
 
-        return fines_states_values, coarse_states_values
+        # running sum of the jumps at each date
+        return np.cumsum(fines_states_values), np.cumsum(coarse_states_values)
 
     def simulate_one_path_with_coupling(self):
         # simulate the jump part first
@@ -309,19 +310,23 @@ class CouplingSimulationWithJumpTimes(CouplingSimulation):
         fine_states_all_values = fine_mc.values
         jump_times = fine_mc.times
 
-        coarse_states_all_values = np.empty_like(fine_states_all_values)
-
-        for k, (slice_fine_states, slice_fine_values) in enumerate(
-            zip(fine_states_increments, fine_states_all_values)
+        # the values of each slice start from 0: carry the running sums from one slice to the next
+        fine_offset, coarse_offset = 0.0, 0.0
+        fine_slices, coarse_slices = [], []
+        for slice_fine_states, slice_fine_values in zip(
+            fine_states_increments, fine_states_all_values
         ):
             if slice_fine_states:
                 slice_coarse_values = self.coupling_states_for_a_slice(
                     slice_fine_states
                 )
-                coarse_states_all_values[k] = slice_coarse_values
+                fine_slices.append(np.asarray(slice_fine_values) + fine_offset)
+                coarse_slices.append(slice_coarse_values + coarse_offset)
+                fine_offset = fine_slices[-1][-1]
+                coarse_offset = coarse_slices[-1][-1]
 
-        fine_values = np.concatenate(fine_states_all_values).ravel().astype(float)
-        coarse_values = np.concatenate(coarse_states_all_values).ravel().astype(float)
+        fine_values = np.concatenate(fine_slices + [[]]).ravel().astype(float)
+        coarse_values = np.concatenate(coarse_slices + [[]]).ravel().astype(float)
 
         return jump_times, fine_values, coarse_values
 
